@@ -82,8 +82,8 @@ def h_ioshape(vm, mir, chunk, bounded):
     plans = [(None, None, 'error')] + [(k, None, 'error') for k in range(max_out)] + [(k, None, 'zero') for k in range(max_out)] + [(None, k, 'error') for k in range(max_in)]
     of, inf, mode = plans[vm.fork(len(plans), note='fault-plan')]
     d0 = describe_holes({}, stdin)
-    vm.describe = lambda m: dict(d0(m), program=text, out_fail_at=of, in_fail_at=inf, out_fail_mode=mode)
-    return run_both(vm, mir, prog, stdin, of, inf, describe=vm.describe, real_lines=(real if bounded else None), out_fail_mode=mode)
+    vm.describe = lambda m: dict(d0(m), program=text, out_fail_at=of, in_fail_at=inf, out_fail_mode=mode, in_first_chunk_bytes=getattr(vm, 'io_first_chunk_bytes', None))
+    return run_both(vm, mir, prog, stdin, of, inf, describe=vm.describe, real_lines=(real if bounded else None), out_fail_mode=mode, chunked=bounded)
 
 
 def jobs(ctx, tier):
